@@ -1,4 +1,7 @@
 import LexVerif.Props.RoundNE
+import LexVerif.Proof.WriteRadixInt
+import LexVerif.Proof.WriteBinaryShape
+import Mathlib.Tactic.SplitIfs
 /-!
 # C07 — generic-radix float output (property theorems about the judge)
 
@@ -13,5 +16,91 @@ open LexVerif.Spec LexVerif.Proof.RoundNE LexVerif.Props.RoundNE
 theorem judge_monotone_f64 (a b c d : Nat) (hb : 0 < b) (hd : 0 < d) (h : (a : ℚ) / b ≤ (c : ℚ) / d) :
     roundNE f64 a b ≤ roundNE f64 c d :=
   roundNE_mono wf_f64 hb hd h
+
+/-! ## the integer part of radix.rs (model `Model/WriteRadixInt.lean`, tied by the `wf` correspondence on integral floats)
+
+IEEE ASSUMPTION, explicit: `IeeeExact lim ops` — on operands that are integers below `lim = 2^53` (f64) / `2^24` (f32),
+the float operations `%`, `-`, `/` return the exact result whenever that result is an integer below `lim` (i.e. is
+representable; IEEE-754 requires correctly rounded `-`, `/` and an exact remainder). The hardware is trusted to satisfy
+it; the Lean driver runs the model with `exactOps`, which satisfies it by definition (`exactOps_ieee`). -/
+section RadixInteger
+open LexVerif.Model LexVerif.Model.WriteBinary LexVerif.Model.WriteRadixInt LexVerif.Proof.WriteRadixInt
+open LexVerif.Proof.WriteBinaryDigits LexVerif.Proof.WriteBinaryShape
+
+theorem exactOps_satisfies_assumption (lim : Nat) : IeeeExact lim exactOps := exactOps_ieee lim
+
+/-- `radix_integer_exact` (digits): for a float whose value is an integer `1 ≤ n < lim ≤ 2^64`, any radix `2 ≤ r < lim`,
+the digit loop of radix.rs produces exactly the canonical numeral `toDigits r n`; it has no leading zero, so
+`sci_exp = digit count - 1`. -/
+theorem radix_integer_exact (ops : FOps) (r lim n : Nat) (hx : IeeeExact lim ops) (hr : 2 ≤ r) (hrl : r < lim)
+    (h0 : 0 < n) (hl : n < lim) (h64 : lim ≤ 2 ^ 64) :
+    integerDigits ops r n = toDigits r n ∧ ltrimZeroCount (integerDigits ops r n) = 0 := by
+  have h := integerDigits_eq ops r lim n hx hr hrl h0 hl h64
+  exact ⟨h, by rw [h]; exact ltrimZeroCount_toDigits r n hr h0⟩
+
+/-- positional notation: the integer part written is `toDigits r n` (never trimmed), the fraction is absent or zeros -/
+theorem radix_integer_exact_positional (o : WOpts) (ds : List Nat) :
+    (nonsciLayout o ds).int = ds ∧ (∀ d ∈ (nonsciLayout o ds).frac, d = 0) ∧ (nonsciLayout o ds).exp = none := by
+  unfold nonsciLayout
+  split
+  · exact ⟨rfl, by simp, rfl⟩
+  · refine ⟨rfl, ?_, rfl⟩
+    intro d hd
+    rcases List.mem_append.mp hd with h | h
+    · simpa using h
+    · rw [pad_eq] at h; exact (List.mem_replicate.mp h).2
+
+/-- scientific notation: one integer digit; the written digits and `toDigits r n` agree up to trailing zeros; the
+exponent is the one passed in (`digit count - 1`) — so the text denotes `n` exactly -/
+theorem radix_integer_exact_scientific (fmt : Format) (o : WOpts) (ds : List Nat) (e : Int) (hne : ds ≠ []) :
+    ∃ j k, (sciLayout fmt o ds e).int ++ (sciLayout fmt o ds e).frac ++ List.replicate k 0 = ds ++ List.replicate j 0
+      ∧ (sciLayout fmt o ds e).int.length = 1 ∧ (sciLayout fmt o ds e).exp = some e := by
+  cases hds : ds with
+  | nil => exact absurd hds hne
+  | cons d0 tail =>
+    obtain ⟨k, hk, _⟩ := rtrimZeros_spec tail
+    have hrep : ∀ a b : Nat, List.replicate a (0 : Nat) ++ List.replicate b 0 = List.replicate b 0 ++ List.replicate a 0 := by
+      intro a b; rw [List.replicate_append_replicate, List.replicate_append_replicate, Nat.add_comm]
+    rcases sciLayout_cases fmt o d0 tail e with ⟨h, hnil⟩ | ⟨h, hnil⟩ | h
+    · rw [h]
+      rw [hnil, List.nil_append] at hk
+      refine ⟨0, k, ?_, rfl, rfl⟩
+      rw [hk]; simp
+    · rw [h]
+      rw [hnil, List.nil_append] at hk
+      refine ⟨1, k, ?_, rfl, rfl⟩
+      have h1 : ([0] : List Nat) = List.replicate 1 0 := rfl
+      rw [hk, h1]
+      simp only [List.cons_append, List.nil_append, List.append_assoc]
+      rw [hrep]
+    · rw [h]
+      refine ⟨minExactDigits (1 + (rtrimZeros tail).length) o - (1 + (rtrimZeros tail).length), k, ?_, rfl, rfl⟩
+      have e1 : d0 :: tail = d0 :: (rtrimZeros tail ++ List.replicate k 0) := by rw [← hk]
+      rw [e1]
+      simp only [List.cons_append, List.nil_append, List.append_assoc]
+      rw [hrep]
+
+/-- the whole integer path: with the digits of `radix_integer_exact`, `radix::write_float` chooses between exactly these
+two layouts on `sci_exp = digit count - 1` -/
+theorem radix_integer_layout (fmt : Format) (o : WOpts) (ops : FOps) (lim n : Nat)
+    (hx : IeeeExact lim ops) (hr : 2 ≤ fmt.mantissaRadix) (hrl : fmt.mantissaRadix < lim)
+    (h0 : 0 < n) (hl : n < lim) (h64 : lim ≤ 2 ^ 64) :
+    layoutInt fmt o ops n = sciLayout fmt o (toDigits fmt.mantissaRadix n)
+        (Dragonbox.i32 (Dragonbox.i32 (((toDigits fmt.mantissaRadix n).length : Int) - (0 : Nat)) - 1))
+    ∨ layoutInt fmt o ops n = nonsciLayout o (toDigits fmt.mantissaRadix n) := by
+  obtain ⟨h1, h2⟩ := radix_integer_exact ops fmt.mantissaRadix lim n hx hr hrl h0 hl h64
+  unfold layoutInt
+  simp only
+  rw [h2, h1]
+  split
+  · exact Or.inl rfl
+  · exact Or.inr rfl
+
+/-- non-vacuity: 2^53 - 1 in radix 36, by the kernel -/
+example : integerDigits exactOps 36 (2 ^ 53 - 1) = toDigits 36 (2 ^ 53 - 1) := by decide +kernel
+example : render ⟨12 + 3 * 2 ^ 104⟩ { radix := true, powerOfTwo := true } {}
+    (layoutInt ⟨12 + 3 * 2 ^ 104⟩ {} exactOps 5000) = [50, 48, 50, 49, 50, 48, 49, 50, 46, 48] := by decide +kernel
+
+end RadixInteger
 
 end LexVerif.Props.C07
